@@ -2,6 +2,7 @@
    (before the channel's time is read) and "lock" (after the shift, before the channel lock) while the other handlers go on *)
 From Coq Require Import List String NArith ZArith Bool Arith Lia Permutation Sorting.Sorted.
 From Verif Require Import Base.Util Reader.Model Reader.Script Reader.Proofs Reader.Conc C03.Check C03.Proofs.
+From Verif Require Import Reader.Forget.
 Import ListNotations.
 Local Open Scope string_scope.
 Local Open Scope N_scope.
@@ -78,6 +79,11 @@ Qed.
 Lemma rel_fire s : rel s (fire s).
 Proof.
   unfold fire. destruct (fire_cbars_frame s) as [A B]. destruct (fire_pbars_frame (fire_cbars s)) as [C D]. apply rel_ext; congruence.
+Qed.
+Lemma rel_ffire l b s : rel s (forget_fired l b (fire s)).
+Proof.
+  eapply rel_trans; [apply rel_fire|]. pose proof (forget_fired_frame l b (fire s)) as F. unfold same_but_heap in F.
+  apply rel_ext; apply F.
 Qed.
 
 Lemma adv_emit1 s ch b e msgs : lts (clock_of s ch) <= cts (clock_of s ch) -> b <= cts (clock_of s ch) ->
@@ -158,7 +164,8 @@ Qed.
 
 Lemma step_feed_eq retries s c cname spch p answers :
   step retries s (Feed c cname spch p answers)
-  = fire (match feed_content retries s c cname spch p answers with FDone s' => s' | FEmit s' ch lab b e msgs need => emit s' ch lab b e msgs need end).
+  = forget_fired (Feed c cname spch p answers) s
+      (fire (match feed_content retries s c cname spch p answers with FDone s' => s' | FEmit s' ch lab b e msgs need => emit s' ch lab b e msgs need end)).
 Proof.
   unfold step, feed_content, fire. destruct (hlookup s spch); [|reflexivity].
   destruct (all_msgs _ _ _) as [s1|a]; [reflexivity|]. destruct (a_fwd a); [|reflexivity].
@@ -171,20 +178,20 @@ Definition label_safe2 (s : st) (l : label) : Prop := match l with Feed _ _ _ p 
 Lemma step_conc retries s l : CInv s -> label_safe2 s l -> CInv (step retries s l) /\ adv s (step retries s l).
 Proof.
   intros I S. destruct l as [c|c pid pname th|c cname spch p answers|cs|c spchs|ns nt].
-  - split; [apply step_CInv; [exact I|exact Logic.I]|]. unfold step. eapply adv_trans; [|apply rel_adv, rel_fire].
+  - split; [apply step_CInv; [exact I|exact Logic.I]|]. unfold step. eapply adv_trans; [|apply rel_adv, rel_ffire].
     destruct (zmem _ _); [apply adv_refl|]. destruct (zlookup _ _); [apply adv_refl|]. destruct (pairing c) as [shards|]; [|apply adv_refl].
     match goal with |- adv s (settle (fold_left ?f shards ?s1)) =>
       assert (E : adv s s1) by (apply rel_adv, rel_ext; reflexivity); eapply adv_trans; [exact E|apply rel_adv, start_coll_rel] end.
-  - split; [apply step_CInv; [exact I|exact Logic.I]|]. unfold step. eapply adv_trans; [|apply rel_adv, rel_fire].
+  - split; [apply step_CInv; [exact I|exact Logic.I]|]. unfold step. eapply adv_trans; [|apply rel_adv, rel_ffire].
     apply rel_adv, rel_ext; repeat dm; reflexivity.
   - cbn [label_safe2] in S. rewrite step_feed_eq. pose proof (feed_content_spec retries s c cname spch p answers S) as F.
     destruct (feed_content retries s c cname spch p answers) as [s'|s' ch lab b e msgs need].
-    + split; [apply (CInv_rel s'); [apply rel_fire|apply (CInv_rel s); assumption]|]. eapply adv_trans; [apply rel_adv; exact F|apply rel_adv, rel_fire].
+    + split; [apply (CInv_rel s'); [apply rel_ffire|apply (CInv_rel s); assumption]|]. eapply adv_trans; [apply rel_adv; exact F|apply rel_adv, rel_ffire].
     + destruct F as [R [Hb [Hw Hs]]]. destruct (emit_conc s' ch lab b e msgs need (CInv_rel s s' R I) Hb Hw Hs) as [I' A'].
-      split; [apply (CInv_rel _ _ (rel_fire _)); exact I'|]. eapply adv_trans; [apply rel_adv; exact R|]. eapply adv_trans; [exact A'|apply rel_adv, rel_fire].
-  - split; [apply step_CInv; [exact I|exact Logic.I]|]. unfold step. eapply adv_trans; [|apply rel_adv, rel_fire]. apply rel_adv, rel_ext; reflexivity.
-  - split; [apply step_CInv; [exact I|exact Logic.I]|]. unfold step. eapply adv_trans; [|apply rel_adv, rel_fire]. apply rel_adv, rel_ext; reflexivity.
-  - split; [apply step_CInv; [exact I|exact Logic.I]|]. unfold step. eapply adv_trans; [|apply rel_adv, rel_fire].
+      split; [apply (CInv_rel _ _ (rel_ffire _ _ _)); exact I'|]. eapply adv_trans; [apply rel_adv; exact R|]. eapply adv_trans; [exact A'|apply rel_adv, rel_ffire].
+  - split; [apply step_CInv; [exact I|exact Logic.I]|]. unfold step. eapply adv_trans; [|apply rel_adv, rel_ffire]. apply rel_adv, rel_ext; reflexivity.
+  - split; [apply step_CInv; [exact I|exact Logic.I]|]. unfold step. eapply adv_trans; [|apply rel_adv, rel_ffire]. apply rel_adv, rel_ext; reflexivity.
+  - split; [apply step_CInv; [exact I|exact Logic.I]|]. unfold step. eapply adv_trans; [|apply rel_adv, rel_ffire].
     destruct (handlers s); [|apply adv_refl]. destruct (wsh s); [|apply adv_refl]. destruct (Manager.g_hs (mg s)); [|apply adv_refl]. apply rel_adv, rel_ext; reflexivity.
 Qed.
 
